@@ -40,7 +40,7 @@ type C18Case struct {
 	PreRead string `json:"api_pre_read,omitempty"`
 }
 
-var c18States = []string{"baseline", "rewrite", "corrupt", "delete", "directories", "dangling", "extra-files", "eacces", "empty", "blank", "huge"}
+var c18States = []string{"baseline", "rewrite", "corrupt", "delete", "directories", "dangling", "extra-files", "eacces", "empty", "blank", "huge", "eacces-inside"}
 
 const (
 	c18Root    = "W/root"
@@ -75,7 +75,7 @@ func genC18(r *gen.Rand) *C18Case {
 	input := "in.yaml"
 	vectors := []string{"parent-dotdot", "parent-absolute", "parent-wildcard", "parent-list", "symlink-relative", "symlink-absolute",
 		"symlink-chain", "dir-symlink", "symlink-name-parent", "input-dotdot", "virtual-ext", "parent-dotdot-sub",
-		"symlink-hops", "symlink-hops", "symlink-via-dirlink", "setroot-sibling-prefix", "setroot-through-dirlink", "parent-wildcard-dir", "preread-then-narrow", "parent-wildcard-mixed", "parent-stdin-name"}
+		"symlink-hops", "symlink-hops", "symlink-via-dirlink", "setroot-sibling-prefix", "setroot-through-dirlink", "parent-wildcard-dir", "preread-then-narrow", "parent-wildcard-mixed", "parent-stdin-name", "dir-symlink-trailing-slash"}
 	c.Vector = gen.PickAny(r, vectors)
 	target := func(outside, inside string) string {
 		if c.Benign {
@@ -205,6 +205,16 @@ func genC18(r *gen.Rand) *C18Case {
 		if c.Benign {
 			put(c18Root+"/sub2/s.yaml", map[string]any{"s2": 1})
 		}
+	case "dir-symlink-trailing-slash":
+		// a directory link whose target is spelled with trailing slashes
+		tgt := r.Pick("../", "..//", "../", "../outside/", "../outside//", "./../outside/.")
+		w.Links = append(w.Links, procsim.Link{Path: c18Root + "/dl", Target: target(tgt, r.Pick("sub/", "sub//", "./sub/."))})
+		if strings.Trim(tgt, "./") == "" {
+			in["$parent"] = target("dl/outside/d", "dl/s")
+		} else {
+			in["$parent"] = target("dl/d", "dl/s")
+		}
+		c.NeedsOutside = !c.Benign
 	case "parent-stdin-name":
 		// a $parent naming a layer called "-" (the spelling of standard
 		// input) next to the decoys; nothing is on stdin
@@ -518,6 +528,16 @@ func judgeC18(e *Env, c *C18Case, tag string, run int64) (*c18Obs, error) {
 				inv.Injects = append(inv.Injects, procsim.Inject{Syscall: "openat", Path: p, Errno: "EACCES"})
 			}
 		}
+		if state == "eacces-inside" {
+			// a permission fault INSIDE the root: the first confined open of
+			// an in-root link fails (a search-only directory, an ACL); what
+			// the tool does next must still stay inside the root
+			for _, l := range c.World.Links {
+				if strings.HasPrefix(l.Path, c18Root+"/") {
+					inv.Injects = append(inv.Injects, procsim.Inject{Syscall: "openat", Path: l.Path, Errno: "EACCES", When: "1"})
+				}
+			}
+		}
 		out, err := runInv(e, root, tool, inv)
 		if err != nil {
 			return nil, err
@@ -585,7 +605,10 @@ func judgeC18(e *Env, c *C18Case, tag string, run int64) (*c18Obs, error) {
 			continue
 		}
 		ok := out.Status == 0
-		if first == nil {
+		if state == "eacces-inside" && len(inv.Injects) > 0 {
+			// a fault inside the root may legitimately change the result;
+			// only the monitors above and the "must fail" clause apply
+		} else if first == nil {
 			first = out
 		} else {
 			if (first.Status == 0) != ok || first.Stdout != out.Stdout {
@@ -641,7 +664,29 @@ func c18Candidates(c *C18Case) []*C18Case {
 }
 
 // c18Known names the known-finding predicate a case satisfies.
+// c18DotDotSlash: os.Root of the Go release the repository pins (1.24.0)
+// follows a directory link whose target is ".." followed by slashes out of
+// the root (fixed upstream in Go 1.24.3); every clause that fires is a
+// consequence of that one escape.
+func c18DotDotSlash(c *C18Case, o *c18Obs) string {
+	if o == nil || c.Benign || c.Vector != "dir-symlink-trailing-slash" {
+		return ""
+	}
+	for _, l := range c.World.Links {
+		if l.Path == c18Root+"/dl" && strings.HasPrefix(l.Target, "..") && strings.Trim(l.Target, "./") == "" && strings.HasSuffix(l.Target, "/") {
+			switch o.Clause {
+			case "opened-file-outside-root", "escape-attempt-did-not-fail", "outside-content-in-output", "result-depends-on-outside-state":
+				return "c18-os-root-dotdot-slash-link"
+			}
+		}
+	}
+	return ""
+}
+
 func c18Known(c *C18Case, o *c18Obs) string {
+	if k := c18DotDotSlash(c, o); k != "" {
+		return k
+	}
 	if o == nil || o.Clause != "result-depends-on-outside-state" || c.Benign {
 		return ""
 	}
@@ -683,6 +728,18 @@ func c18SentinelStdin() *C18Case {
 		{Path: c18Root + "/in.yaml", Docs: treeDocs(map[string]any{"$parent": "../outside/-", "z": 1})},
 		{Path: c18Outside + "/-.yaml", Docs: treeDocs(map[string]any{"secret": "S9"})},
 	}
+	c.Args = []string{"-r", "root", "root/in.yaml"}
+	return c
+}
+
+func c18SentinelDotDotSlash() *C18Case {
+	c := &C18Case{Cwd: "W", Vector: "dir-symlink-trailing-slash", States: []string{"baseline", "rewrite"}, NeedsOutside: true}
+	c.World.Dirs = []string{c18Root, c18Outside}
+	c.World.Files = []procsim.File{
+		{Path: c18Root + "/in.yaml", Docs: treeDocs(map[string]any{"$parent": "dl/outside/d", "z": 1})},
+		{Path: c18Outside + "/d.yaml", Docs: treeDocs(map[string]any{"secret": "S1"})},
+	}
+	c.World.Links = []procsim.Link{{Path: c18Root + "/dl", Target: "../"}}
 	c.Args = []string{"-r", "root", "root/in.yaml"}
 	return c
 }
@@ -763,7 +820,7 @@ func RunC18(e *Env) (int, error) {
 		return v, ""
 	}
 	t0 := time.Now()
-	for k, c := range []*C18Case{c18Sentinel(), c18SentinelStdin()} {
+	for k, c := range []*C18Case{c18Sentinel(), c18SentinelStdin(), c18SentinelDotDotSlash()} {
 		o, err := judgeC18(e, c, "sentinel", int64(k))
 		if err != nil {
 			return 0, err
